@@ -1,5 +1,6 @@
 import SamVerif.Lemmas.EnumSpec
 import SamVerif.Lemmas.TailRec
+import SamVerif.Lemmas.CpeSem
 /-!
 # C01 — compiled code behaves as the source semantics prescribe: property theorems
 
@@ -23,7 +24,10 @@ K3 (tail recursion → loop, `mir_tail_recursion_rewrite.rs`; loop update `wasm_
 
 K4 (constant-parameter elimination decision, `mir_constant_param_elimination.rs`):
 * `meet_comm`, `meet_assoc`, `meet_idem`, `paramState_c32_sound`, `paramState_unused_sound`,
-  `mem_selfCallReads`.
+  `mem_selfCallReads` (decision kernel);
+* `cpe_unused_preserves`, `cpe_const_preserves` (K4b, `Model/CpeSem.lean`): removing a parameter the
+  kernel classifies `Unused` / `Int32Constant(n)` preserves printed lines and returned value of a
+  self-recursive function (self calls in any position), for all arguments and fuel.
 -/
 namespace SamVerif.C01
 open SamVerif.EnumLayout
@@ -534,82 +538,67 @@ theorem paramState_unused_sound (prog : List Fn) (f : Fn) (i : Nat) (p : Name)
 
 /-- The self-call exemption (l.94-104), stated independently: a name counts as read by a self call
 iff it is passed in some position that is not its own. -/
-theorem mem_selfCallReads (params : List Name) : ∀ (args : List Arg) (x : Name),
-    x ∈ selfCallReads params args ↔ ∃ j : Nat, args[j]? = some (Arg.var x) ∧ params[j]? ≠ some x := by
-  induction params with
-  | nil =>
-    intro args x
-    cases args with
-    | nil => simp [selfCallReads]
-    | cons a rest =>
-      simp only [selfCallReads, List.mem_filterMap]
-      constructor
-      · rintro ⟨b, hb, h⟩
-        cases b <;> simp at h
-        subst h
-        obtain ⟨j, hj⟩ := List.getElem?_of_mem hb
-        exact ⟨j, hj, by simp⟩
-      · rintro ⟨j, h1, _⟩
-        exact ⟨Arg.var x, List.mem_of_getElem? h1, rfl⟩
-  | cons p ps ih =>
-    intro args x
-    cases args with
-    | nil => simp [selfCallReads]
-    | cons a rest =>
-      have shift : (∃ j : Nat, rest[j]? = some (Arg.var x) ∧ ps[j]? ≠ some x) →
-          ∃ j : Nat, (a :: rest)[j]? = some (Arg.var x) ∧ (p :: ps)[j]? ≠ some x := by
-        rintro ⟨j, h1, h2⟩
-        exact ⟨j + 1, by simpa using h1, by simpa using h2⟩
-      have unshift : ∀ j : Nat, (a :: rest)[j + 1]? = some (Arg.var x) → (p :: ps)[j + 1]? ≠ some x →
-          ∃ j : Nat, rest[j]? = some (Arg.var x) ∧ ps[j]? ≠ some x := by
-        intro j h1 h2
-        exact ⟨j, by simpa using h1, by simpa using h2⟩
-      cases a with
-      | var y =>
-        by_cases hy : y = p
-        · subst hy
-          simp only [selfCallReads, if_true, ih]
-          constructor
-          · exact shift
-          · rintro ⟨j, h1, h2⟩
-            cases j with
-            | zero => simp at h1 h2; exact absurd h1 h2
-            | succ j => exact unshift j h1 h2
-        · simp only [selfCallReads, hy, if_false, List.mem_cons, ih]
-          constructor
-          · rintro (h1 | h)
-            · subst h1
-              exact ⟨0, by simp, by simpa using fun h' => hy h'.symm⟩
-            · exact shift h
-          · rintro ⟨j, h1, h2⟩
-            cases j with
-            | zero => simp at h1; left; exact h1.symm
-            | succ j => right; exact unshift j h1 h2
-      | i32 n =>
-        simp only [selfCallReads, ih]
-        constructor
-        · exact shift
-        · rintro ⟨j, h1, h2⟩
-          cases j with
-          | zero => simp at h1
-          | succ j => exact unshift j h1 h2
-      | i31 n =>
-        simp only [selfCallReads, ih]
-        constructor
-        · exact shift
-        · rintro ⟨j, h1, h2⟩
-          cases j with
-          | zero => simp at h1
-          | succ j => exact unshift j h1 h2
-      | str n =>
-        simp only [selfCallReads, ih]
-        constructor
-        · exact shift
-        · rintro ⟨j, h1, h2⟩
-          cases j with
-          | zero => simp at h1
-          | succ j => exact unshift j h1 h2
+theorem mem_selfCallReads (params : List Name) (args : List Arg) (x : Name) :
+    x ∈ selfCallReads params args ↔ ∃ j : Nat, args[j]? = some (Arg.var x) ∧ params[j]? ≠ some x :=
+  mem_selfCallReads_iff params args x
 
+section
+open SamVerif.CpeSem
+
+/-- The function as the decision kernel sees it. -/
+def fnOf (self : Nat) (params : List Name) (body : CBody) : Fn :=
+  { name := self, params := params, atoms := atomsOf self body }
+
+/-- **Eliminating a parameter classified `Unused` preserves behaviour.** For every operator
+semantics, every self-recursive function of the fragment (self calls in any position, prints,
+if-else), every program around it: if the decision kernel ends with `Unused` for parameter `i`, the
+function with that parameter removed from its signature and from every self call prints the same
+lines and returns the same value — for all arguments and all fuel. (Hypotheses besides the
+decision: MIR well-formedness — distinct parameter names, parameters never assigned, self calls
+with one argument per parameter.) -/
+theorem cpe_unused_preserves (ev : Op → Int → Int → Option Int) (prog : List Fn) (self : Nat)
+    (hself : self ≠ 999) (params : List Name) (body : CBody) (i : Nat) (p : Name)
+    (hp : params[i]? = some p) (hnd : params.Nodup)
+    (hdec : paramState prog (fnOf self params body) i p = .unused)
+    (hass : assigns p body = false) (har : callsArity params.length body = true) :
+    ∀ (fuel : Nat) (vals : List Int),
+      run ev params body fuel vals =
+        run ev (params.eraseIdx i) (dropArg i body) fuel (vals.eraseIdx i) := by
+  intro fuel vals
+  have hr : p ∉ readsOf self params body := by
+    have := paramState_unused_sound prog (fnOf self params body) i p hdec
+    simpa [fnOf, localReads_eq] using this
+  have hok := okUnused_of_reads self hself params p i hp hnd body hr hass har
+  exact exec_drop ev params body p i hp hnd hok fuel body _ _ [] (bindParams_erase p params vals i hp hnd) hok
+
+/-- **Eliminating a parameter classified `Int32Constant(n)` preserves behaviour.** If the decision
+kernel ends with the constant `n` for parameter `i` of a function that is part of the program, then
+— whenever the function is entered with `n` in that position, which is what every call site does
+(`paramState_c32_sound`) — the function with the parameter replaced by the literal and removed from
+its signature and from every self call behaves the same, for all other arguments and all fuel. -/
+theorem cpe_const_preserves (ev : Op → Int → Int → Option Int) (prog : List Fn) (self : Nat)
+    (hself : self ≠ 999) (params : List Name) (body : CBody) (i : Nat) (p : Name) (n : Int)
+    (hp : params[i]? = some p) (hnd : params.Nodup)
+    (hmem : fnOf self params body ∈ prog)
+    (hdec : paramState prog (fnOf self params body) i p = .c32 n)
+    (hass : assigns p body = false) (har : callsArity params.length body = true) :
+    ∀ (fuel : Nat) (vals : List Int), vals[i]? = some n →
+      run ev params body fuel vals =
+        run ev (params.eraseIdx i) (dropArg i (substVar p n body)) fuel (vals.eraseIdx i) := by
+  intro fuel vals hv
+  have hsites := (paramState_c32_sound prog (fnOf self params body) i p n hdec).2
+  have hi : i < params.length := (List.getElem?_eq_some_iff.mp hp).1
+  have hok : okConst p i n params.length body := by
+    apply okConst_of_calls p i n params.length hi body _ hass har
+    intro args hargs a ha
+    apply hsites (args.map exprArg) _ a ha
+    simp only [callSites, List.mem_flatMap, List.mem_filterMap]
+    refine ⟨fnOf self params body, hmem, .call self (args.map exprArg), ?_, by simp [fnOf]⟩
+    exact selfCalls_atoms self hself body args hargs
+  exact exec_subst ev params body p i n hp hnd hok fuel body _ _ [] (bindParams_erase p params vals i hp hnd)
+    (bindParams_get p params vals i n hp hnd hv) hok
+
+end
 
 /-! ## Non-vacuity -/
 section
@@ -642,6 +631,25 @@ example : readsOther [0, 1, 2] [.var 1, .var 0, .var 13] = true := by decide
 example : readsOther [0, 1, 2] [.var 0, .var 12, .var 13] = false := by decide
 example : [0, 1, 2].Nodup := by decide
 example : runRec evalTarget [0, 1, 2] swapBody 5 [1, 2, 2] = some 12 := by decide
+section
+open SamVerif.CpeSem
+-- g(n, c, dead) = if n <= 0 { 0 } else { let r = g(n - 1, 5, dead); print(n, c); c * n + r }, called as g(3, 5, 78)
+def gBody : CBody :=
+  .bin 10 .le (.var 0) (.lit 0)
+    (.ite (.var 10) (.ret (.lit 0))
+      (.bin 11 .sub (.var 0) (.lit 1)
+        (.call 12 [.var 11, .lit 5, .var 2]
+          (.print [.var 0, .var 1]
+            (.bin 13 .mul (.var 1) (.var 0) (.bin 14 .add (.var 13) (.var 12) (.ret (.var 14))))))))
+def gProg : List Fn :=
+  [{ name := 0, params := [], atoms := [.call 1 [.i32 3, .i32 5, .i32 78]] }, fnOf 1 [0, 1, 2] gBody]
+-- the hypotheses of both theorems are satisfiable: `dead` is Unused, `c` is the constant 5
+example : paramState gProg (fnOf 1 [0, 1, 2] gBody) 2 2 = .unused := by decide
+example : paramState gProg (fnOf 1 [0, 1, 2] gBody) 1 1 = .c32 5 := by decide
+example : paramState gProg (fnOf 1 [0, 1, 2] gBody) 0 0 = .unopt := by decide
+example : assigns 2 gBody = false ∧ assigns 1 gBody = false ∧ callsArity 3 gBody = true := by decide
+example : fnOf 1 [0, 1, 2] gBody ∈ gProg := by simp [gProg]
+end
 -- rotation f(n, a, b) -> f(n - 1, b, a): both parameters are read (seeded fault C01: they must be kept)
 example : selfCallReads [0, 1, 2] [.var 9, .var 2, .var 1] = [9, 2, 1] := by decide
 example : selfCallReads [0, 1, 2] [.var 9, .var 1, .var 2] = [9] := by decide
